@@ -123,6 +123,48 @@ def send_eof_order(n1: int, n2: int, w: int, a1: int, a2: int, fin: int) -> bool
     return True
 
 
+WDATA = [b'ab', b'CD', b'ef', b'GH']
+
+
+def send_types(t0: bool, t1: bool, t2: bool, t3: bool, n0: int, n1: int, n2: int, n3: int, w: int, pktsize: int, adj: int, fin: bool, nw: int = 4) -> bool:
+    """Four writes, each to stdout or stderr (symbolic), 0..2 bytes each, against
+    a symbolic send window (so that any number of them queue up), then window
+    adjusts until everything is out: the wire carries exactly the written bytes,
+    each under the data type it was written with, in the order written, and EOF
+    (if requested) after the last of them."""
+    chan, conn, loop = mkchan(window=64, pktsize=64, fuel=60)
+    chan._send_window = w
+    chan._send_pktsize = pktsize
+    types = [EXTENDED_DATA_STDERR if t else None for t in (t0, t1, t2, t3)]
+    lens = [n0, n1, n2, n3]
+    want = []
+    for i in range(nw):
+        d = WDATA[i][:lens[i]]
+        chan.write(d, types[i])
+        for b in d:
+            want.append((types[i], b))
+    if fin:
+        chan.write_eof()
+    chan._process_window_adjust(93, 0, SSHPacket(UInt32(adj)))
+    chan._process_window_adjust(93, 0, SSHPacket(UInt32(16)))
+    pk = split_sent(conn.sent)
+    got = []
+    tail = []
+    for kind, dt, data, wf in pk:
+        if not wf:
+            return False
+        if kind != 'data':
+            tail.append(kind)
+            continue
+        if tail or not data:
+            return False
+        for b in data:
+            got.append((dt, b))
+    if got != want:
+        return False
+    return tail == (['eof'] if fin else [])
+
+
 class _RecCodec:
     def __init__(self, real, log, tag):
         self.real, self.log, self.tag = real, log, tag
@@ -358,6 +400,15 @@ OBLIGATIONS = [
        timeout=120, thorough_timeout=400,
        functions=[CH.SSHChannel.write, CH.SSHChannel._flush_send_buf],
        bounds='same harness as C08.send_window (two writes, stdout/stderr, one adjust)'),
+    Ob('send_types', send_types,
+       sym=dict(t0=B, t1=B, t2=B, n0=R(1, 2), n1=R(1, 2), n2=R(1, 2), w=R(0, 3), adj=R(0, 2), fin=B),
+       shards=dict(t0=[False, True], t1=[False, True], t2=[False, True], w=[0, 1, 3]),
+       fixed=dict(t3=False, n3=0, nw=3, pktsize=2),
+       thorough_sym=dict(t3=B, n0=R(0, 2), n1=R(0, 2), n2=R(0, 2), n3=R(0, 2), pktsize=R(1, 3), nw=R(4, 4)),
+       thorough_shards=dict(t0=[False, True], t1=[False, True], t2=[False, True], w=[0, 1, 2, 4]),
+       timeout=200, thorough_timeout=900,
+       functions=[CH.SSHChannel.write, CH.SSHChannel._flush_send_buf, CH.SSHChannel._process_window_adjust, CH.SSHChannel.write_eof],
+       bounds='3 writes x {stdout, stderr} x 1..2 bytes, initial window in {0,1,3}, peer packet size 2, adjust 0..2 then 16, with/without write_eof (thorough: 4 writes x 0..2 bytes, packet size 1..3, window {0,1,2,4})'),
     Ob('text_codec', text_codec,
        sym=dict(cut=R(0, 40), paused=B, eof=B),
        shards=dict(enc=[0, 1, 2], wsel=[0, 1, 2, 3, 4, 5]),
